@@ -18,6 +18,7 @@ Extraction "model.ml"
   miter mupdate mrm map_valops mvreg_valops orswot_valops cmap_eq_dec
   idcmp between idvalue ncompare odcmp
   gl_apply gl_merge gl_read gl_get gl_insert gl_insert_before gl_insert_after
+  l_is_empty l_iter_entries l_position_entry l_get l_first_entry l_last_entry l_first l_last gl_is_empty gl_first gl_last
   l_new l_insert_index l_append l_delete_index l_apply l_validate_op l_read l_len l_position
   mk_new mk_apply mk_merge mk_missing mk_read mk_node mk_children mk_parents
   mk_num_nodes mk_num_orphans enc_hash merkle_eq_dec
